@@ -247,6 +247,9 @@ class C04World:
         S = slot.seq
         kind, _, applier, _, _ = OPS[op]
         args = ev.get("args", {})
+        pre_fn = seqops.PRECOND.get(op)
+        if pre_fn is not None and not pre_fn(S, args):
+            return "skip:precondition"
         T = clone_seq(S)  # clean twin: only the fresh views, deep-copied, no stale leftovers
         P = clone_seq(S)  # pre-state, for the cross-freshness-state variants (oracle D2)
         rs, es = _call(applier, S, args)
